@@ -417,6 +417,9 @@ hwloc_nolibxml_backend_init(struct hwloc_xml_backend_data_s *bdata,
   bdata->data = nbdata;
 
   if (xmlbuffer) {
+    if (xmlbuflen <= 0)
+      /* the buffer must at least contain the ending \0 */
+      goto out_with_nbdata;
     nbdata->buffer = malloc(xmlbuflen);
     if (!nbdata->buffer)
       goto out_with_nbdata;
@@ -456,6 +459,9 @@ hwloc_nolibxml_import_diff(struct hwloc__xml_import_state_s *state,
   HWLOC_BUILD_ASSERT(sizeof(*nstate) <= sizeof(state->data));
 
   if (xmlbuffer) {
+    if (xmlbuflen <= 0)
+      /* the buffer must at least contain the ending \0 */
+      goto out;
     buffer = malloc(xmlbuflen);
     if (!buffer)
       goto out;
